@@ -259,10 +259,31 @@ func c03r3(c *Ctx) {
 				valEdges = append(valEdges, f.CheckOf(vc.Expr).Succ...)
 			}
 			good := len(valEdges) > 0
+			isVal := map[*cfgx.Edge]bool{}
+			for _, e := range valEdges {
+				isVal[e] = true
+			}
 			for _, need := range []*types.Func{r.storeAddState, r.storeAddBlock} {
 				isNeed := func(n *cfgx.Node) bool { _, ok := f.NodeCallsTo(n, need); return ok }
-				if _, skip := f.ReachableFromEdges(valEdges, isNeed)[an]; skip {
-					good = false
+				// from the entry, so that what the path established before the validation (a flag saying the block
+				// is new) still holds after it: state 1 = validated, not yet stored
+				for _, v := range f.ExploreFeasible([]*cfgx.Visit{cfgx.StartAt(g.Entry, 0)}, cfgx.Walker{
+					AtNode: func(n *cfgx.Node, s cfgx.State) (cfgx.State, bool) {
+						if s == 1 && isNeed(n) {
+							return 2, false
+						}
+						return s, true
+					},
+					OnEdge: func(e *cfgx.Edge, s cfgx.State) (cfgx.State, bool) {
+						if isVal[e] && s == 0 {
+							return 1, true
+						}
+						return s, true
+					},
+				}) {
+					if v.Node == an && v.State == 1 {
+						good = false
+					}
 				}
 			}
 			ob2.Check(good, nil, "on the path where the block is validated for the first time, Store.ApplyBlock is reachable without Store.AddState and Store.AddBlock(b, supplement) having been called: a commit inside ApplyBlock then holds the new tip with a header-only state or without its supplement")
